@@ -1,1 +1,28 @@
-// (no lemmas yet)
+pub open spec fn xml_one(c: char) -> Seq<char> {
+    if c == '&' { "&amp;"@ } else if c == '<' { "&lt;"@ } else if c == '>' { "&gt;"@ } else if c == '"' { "&quot;"@ } else if c == '\'' { "&apos;"@ } else { seq![c] }
+}
+pub open spec fn xml_all(s: Seq<char>) -> Seq<char>
+    decreases s.len()
+{
+    if s.len() == 0 { Seq::<char>::empty() } else { xml_all(s.drop_last()) + xml_one(s.last()) }
+}
+pub open spec fn clean(s: Seq<char>) -> bool { forall|i: int| 0 <= i < s.len() ==> s[i] != '<' && s[i] != '>' && s[i] != '"' && s[i] != '\'' }
+pub proof fn lemma_xml_all_push(s: Seq<char>, k: int)
+    requires 0 <= k < s.len()
+    ensures xml_all(s.take(k + 1)) == xml_all(s.take(k)) + xml_one(s[k])
+{
+    assert(s.take(k + 1).drop_last() =~= s.take(k));
+    assert(s.take(k + 1).last() == s[k]);
+}
+/// (output so far, "capitalize the next letter") after the first k characters
+pub open spec fn title_fold(s: Seq<char>, k: int) -> (Seq<char>, bool)
+    decreases k
+{
+    if k <= 0 { (Seq::<char>::empty(), true) } else {
+        let (o, cap) = title_fold(s, k - 1);
+        let c = s[k - 1];
+        if is_ascii_punct(c) || is_ws_char(c) { (o.push(c), if c != '\'' { true } else { cap }) }
+        else if cap { (o + upper_c(c), false) }
+        else { (o + lower_c(c), false) }
+    }
+}
